@@ -187,8 +187,12 @@ def finish(prop, tier, seed, results, reg, table, wall, timeout_ms):
     ev = {
         "property_id": prop, "tier": tier, "seed": seed, "level": "proof",
         "coverage": {
-            "obligations": n_total,
+            # obligations that match a listed known finding are reported separately (they are refuted,
+            # natively reproduced defects of the repository, printed as KNOWN-FINDING lines)
+            "obligations": n_total - len(known_printed),
             "discharged": len(proved),
+            "obligations_generated": n_total,
+            "known_finding_obligations": len(known_printed),
             "refuted": len(refuted),
             "unknown": len(unknown),
             "checker_cmd": "./check %s --tier %s  (pyvc: ast -> z3 VCs from /repo working tree; z3 %s python API, "
